@@ -1,9 +1,11 @@
 //! C14: whitespace corruption and the labels of the whitespace-correction task,
 //! through the public `preprocessing(WhitespaceCorruption)` and
 //! `train_task(WhitespaceCorrection)`.
-//! input  = (g text cseg seed ks iw dw np ns)
-//!          text  clusters of the text (real CharString)
-//!          cseg  clusters of the real corrupted text (oracle; `()` if rejected)
+//! input  = (g text cseg seed ks iw dw np ns kf1 ss)
+//!          text  clusters of the text (unicode-segmentation; compared with the model's `segment` by `agree`)
+//!          cseg  clusters of the real corrupted text (the same; `()` if rejected)
+//!          kf1   the known-finding class flag (below); ss = `corrupt_safe text` as evaluated by
+//!                harness/src/seam.rs (compared with the model's `corrupt_safe` by `agree`)
 //!          ks    the draws r*2^53 of ChaCha8Rng::seed_from_u64(seed), one per character
 //!          iw dw numerators of the probabilities over 2^53 (clamped by the code)
 //! output = (0) | (1 corrupted target (labels)? same-again)
@@ -20,6 +22,9 @@ use text_utils::tokenization::{
 };
 use text_utils::unicode::CharString;
 use vh::*;
+
+#[path = "../seam.rs"]
+mod seam;
 
 struct C14;
 
@@ -144,10 +149,11 @@ fn numerator(rng: &mut Rng) -> i64 {
 fn mk_input(text: &str, g: bool, seed: u64, iw: i64, dw: i64, np: usize, ns: usize) -> Val {
     let n = CharString::new(text, g).len();
     let ks = draws(seed, n);
-    let cseg = match corrupt(text, seed, iw, dw, g) {
-        Some((c, _)) => Val::clusters(&c, g),
-        None => Val::L(vec![]),
+    let (cseg, kf1) = match corrupt(text, seed, iw, dw, g) {
+        Some((c, _)) => (Val::clusters(&c, g), kf1_class(text, &c, g)),
+        None => (Val::L(vec![]), false),
     };
+    let ss = g && seam::corrupt_safe(text);
     Val::L(vec![
         Val::b(g),
         Val::clusters(text, g),
@@ -158,7 +164,15 @@ fn mk_input(text: &str, g: bool, seed: u64, iw: i64, dw: i64, np: usize, ns: usi
         Val::I(dw),
         Val::u(np),
         Val::u(ns),
+        Val::b(kf1),
+        Val::b(ss),
     ])
+}
+
+/// class KF1: the real segmentation of the corrupted text is not the text's non-whitespace
+/// clusters plus whitespace clusters
+fn kf1_class(text: &str, c: &str, g: bool) -> bool {
+    g && (nonws_clusters(c, g) != nonws_clusters(text, g) || vh::split_clusters(c, g).any(is_mixed))
 }
 
 impl Prop for C14 {
@@ -166,7 +180,21 @@ impl Prop for C14 {
         let g = rng.chance(1, 2);
         let seam = g && rng.chance(1, 5);
         let stream = rng.below(100);
-        let text = if stream < 75 {
+        let text = if g && stream < 12 {
+            // seam probe: a pair of code points of random grapheme categories (biased to the edge of
+            // `cf_break`), inside a word or across a word boundary, behind a text that sets up the
+            // look-behind states of the segmenter
+            let (a, b) = seam::seam_pair(rng);
+            let (u, v) = (seam::seam_prefix(rng), seam::seam_suffix(rng));
+            match rng.below(4) {
+                0 => format!("{u}{a} {b}{v}"),
+                1 => format!("{u}{a}{b}{v}"),
+                2 => format!("x {u}{a} {b}{v} y"),
+                _ => format!("{u} {a}{b} {v}x"),
+            }
+            .trim()
+            .to_string()
+        } else if stream < 75 {
             // clean text: words separated by single spaces
             let nw = if rng.chance(1, 8) { rng.below(2) } else { rng.range(2, 6) };
             {
@@ -262,12 +290,16 @@ impl Prop for C14 {
 
     fn run(&mut self, input: &Val) -> Option<(Val, Vec<String>)> {
         let l = input.as_l()?;
-        if l.len() != 9 {
+        if l.len() != 11 {
             return None;
         }
         let g = l[0].as_bool()?;
         let text = l[1].clusters_to_string()?;
         if Val::clusters(&text, g) != l[1] {
+            return None;
+        }
+        let ss = g && seam::corrupt_safe(&text);
+        if ss != l[10].as_bool()? {
             return None;
         }
         let seed = u64::try_from(l[3].as_i()?).ok()?;
@@ -289,14 +321,14 @@ impl Prop for C14 {
         let mut tags = vec![if g { "g".to_string() } else { "cp".to_string() }];
         let out = match &first {
             None => {
-                if !l[2].as_l()?.is_empty() {
+                if !l[2].as_l()?.is_empty() || l[9].as_bool()? {
                     return None;
                 }
                 tags.push("rejected".into());
                 Val::L(vec![Val::I(0)])
             }
             Some((c, tgt)) => {
-                if Val::clusters(c, g) != l[2] {
+                if Val::clusters(c, g) != l[2] || kf1_class(&text, c, g) != l[9].as_bool()? {
                     return None;
                 }
                 // same (text, seed) again, through a freshly built function
@@ -317,15 +349,28 @@ impl Prop for C14 {
                     Ok(l) => l,
                     Err(_) => return Some((Val::panic(), tags)),
                 };
-                // class KF1: the real segmentation of the corrupted text is not the text's
-                // non-whitespace clusters plus whitespace clusters
-                if g
-                    && (nonws_clusters(c, g) != nonws_clusters(&text, g)
-                        || vh::split_clusters(c, g).any(is_mixed))
-                {
+                let is_clean = clean(&text, g) == text && !vh::split_clusters(&text, g).any(is_mixed);
+                // class KF1 (see `kf1_class`). Inside the domain of `corrupt_labels_u` (clean text,
+                // `corrupt_safe`) a failure is NOT a known finding: the class tag is withheld, so it is
+                // reported as a violation; `agree` flags every such case with the class flag set.
+                let kf1 = kf1_class(&text, c, g);
+                if kf1 {
+                    tags.push("kf1".into());
+                }
+                if kf1 && is_clean {
+                    tags.push("kf1-clean".into());
+                }
+                if g && is_clean {
+                    tags.push(if ss { "safe".into() } else { "unsafe".into() });
+                    if seam::corrupt_safe_cf(&text) {
+                        tags.push("safe-cf".into());
+                    }
+                }
+                if kf1 && ss && is_clean {
+                    tags.push("safe-kf1".into());
+                } else if kf1 {
                     tags.push("class:KF1".into());
                 }
-                let is_clean = clean(&text, g) == text && !vh::split_clusters(&text, g).any(is_mixed);
                 if is_clean {
                     tags.push("clean".into());
                 }
@@ -353,7 +398,7 @@ impl Prop for C14 {
 
     fn canon(&mut self, input: &Val) -> Option<Val> {
         let l = input.as_l()?;
-        if l.len() != 9 {
+        if l.len() != 9 && l.len() != 11 {
             return None;
         }
         let g = l[0].as_bool()?;
@@ -372,6 +417,7 @@ impl Prop for C14 {
 
     fn selfcheck(&mut self) -> Vec<String> {
         let mut errs = ws_table_selfcheck();
+        errs.extend(seam::cats_selfcheck());
         // the replicated stream must be a function of the seed only
         if draws(7, 16) != draws(7, 16) || draws(7, 16)[..8] != draws(7, 8)[..] {
             errs.push("ChaCha8 draw replication is not a prefix-stable function of the seed".into());
